@@ -11,6 +11,7 @@ import (
 	"testing"
 
 	"github.com/bufbuild/bufverif/internal/evid"
+	"github.com/bufbuild/bufverif/internal/protogen"
 	"pgregory.net/rapid"
 )
 
@@ -145,8 +146,9 @@ func runPackaging(ctx context.Context, t fataler, r *evid.Recorder, c *PkgCase) 
 			if err != nil {
 				t.Fatalf("harness: %v", err)
 			}
-			// one directory, no buf.yaml: module names legitimately disappear and the file order may follow the new layout
-			if what, m := compareViews(res, want, got, cmpOpts{ignoreModule: true, ignoreOrder: true}); what != "" {
+			// one directory, no buf.yaml: module names legitimately disappear; the file order does not change
+			// (target files are documented to be taken sorted by path, whatever module they live in)
+			if what, m := compareViews(res, want, got, cmpOpts{ignoreModule: true}); what != "" {
 				r.Fail(t, "packaging:"+kind+":"+what, m, c)
 				return
 			}
@@ -184,10 +186,53 @@ func runPackaging(ctx context.Context, t fataler, r *evid.Recorder, c *PkgCase) 
 	if len(c.Src.Mods) >= 2 {
 		r.Class("packaging:multi-module")
 	}
+	if hasStemShape(c.Src) {
+		r.Class("packaging:file-or-directory-shares-stem-with-sibling-directory")
+	}
 	if nHere >= 3 && len(c.Src.allPaths()) >= 2 {
 		r.NonTrivial("packaging|" + c.Src.canon() + "|" + strings.Join(c.Kinds, ","))
 		r.Sample(map[string]any{"kind": "packaging", "files": c.Src.allPaths(), "packagings": c.Kinds})
 	}
+}
+
+// addStemShapes adds tiny extra files whose names make "order of directory entries" and "order of
+// full paths" disagree: a file `<dir>.proto` next to the directory `<dir>/` ('.' sorts before '/'),
+// and a directory `<dir>-x/` next to `<dir>/` ('-' sorts before '/'). A directory packaging is
+// enumerated entry by entry, an archive by full path; the built image must not depend on that.
+func addStemShapes(t *rapid.T, src *Src) {
+	n := rapid.IntRange(0, 3).Draw(t, "stem-shapes")
+	for k := 0; k < n; k++ {
+		m := src.Mods[rapid.IntRange(0, len(src.Mods)-1).Draw(t, "stem-module")]
+		dirs := dirsOf(protogen.SortedPaths(src.Files[m.Dir]))
+		if len(dirs) == 0 {
+			continue
+		}
+		d := dirs[rapid.IntRange(0, len(dirs)-1).Draw(t, "stem-dir")]
+		p := d + ".proto"
+		if rapid.Bool().Draw(t, "stem-kind") {
+			p = d + "-x/extra.proto"
+		}
+		if src.moduleOf(p) != "" {
+			continue
+		}
+		src.Files[m.Dir][p] = fmt.Sprintf("syntax = \"proto3\";\npackage stemshape%d.v1;\nmessage StemShape%d {\n  string value = 1;\n}\n", k, k)
+	}
+}
+
+func hasStemShape(src Src) bool {
+	for _, p := range src.allPaths() {
+		if strings.HasSuffix(p, "-x/extra.proto") {
+			return true
+		}
+		if d := strings.TrimSuffix(p, ".proto"); d != p {
+			for _, q := range src.allPaths() {
+				if strings.HasPrefix(q, d+"/") {
+					return true
+				}
+			}
+		}
+	}
+	return false
 }
 
 func sortedCopy(a []string) []string {
@@ -201,6 +246,7 @@ func TestPackagings(t *testing.T) {
 	ctx := context.Background()
 	r.Check(t, r.Scale(28, 560), 3, func(t *rapid.T) {
 		src, _ := genSrc(t, false)
+		addStemShapes(t, &src)
 		c := &PkgCase{Kind: "packaging", Src: src}
 		perm := rapid.Permutation(packagingKinds).Draw(t, "kinds")
 		c.Kinds = perm[:rapid.IntRange(3, 6).Draw(t, "n-kinds")]
